@@ -31,7 +31,7 @@ func init() {
 	vlib.Register(&vlib.Prop{
 		ID:    "C15",
 		Level: "exploration",
-		Cases: func(tier string) int { return vlib.TierN(tier, 500, 10000) },
+		Cases: func(tier string) int { return vlib.TierN(tier, 500, 120000) },
 		Rule: "one case = one Router with a command processor, an event processor and an event-group processor (each built with a random constructor: " +
 			"WithConfig or the deprecated one) plus a command bus and an event bus in front of a capturing publisher, under one random configuration: marshaler " +
 			"JSON / Proto / Protobuf(gogo, std fallback on or off), name generator default / FullyQualifiedStructName / StructName / NamedStruct(fq|short) / table-driven custom, " +
